@@ -46,6 +46,7 @@ type script struct {
 	//   reuse-msg        the client receives every response into ONE message object (responses count down to 0)
 	//   late-setheader   the server calls SetHeader again after SendHeader (refused by gRPC, never delivered)
 	//   closesend-twice  the client half-closes twice
+	//   respond-then     a client-streaming handler sends its response, then sets a trailer and returns its final result
 	Quirk string
 }
 
@@ -68,6 +69,10 @@ func (s script) finalErr() error {
 		return status.Error(codes.FailedPrecondition, "scripted status")
 	case "plain":
 		return errors.New("scripted plain error")
+	case "bare-deadline":
+		return context.DeadlineExceeded // a handler passing on the error of some inner call, not a status
+	case "bare-canceled":
+		return context.Canceled
 	}
 	return nil
 }
@@ -167,6 +172,14 @@ func (s *server) ClientStream(stream grpc.ClientStreamingServer[tp.ClientStreamR
 		got = append(got, m.Msg)
 		s.saw(m.Msg)
 	}
+	if sc.Quirk == "respond-then" {
+		// the response goes out first; what the handler does and returns afterwards still belongs to the call
+		if err := stream.SendAndClose(&tp.ClientStreamResponse{Msg: strings.Join(got, "+")}); err != nil {
+			return err
+		}
+		stream.SetTrailer(metadata.Pairs("x-t-late", "7"))
+		return sc.finalErr()
+	}
 	if err := sc.finalErr(); err != nil {
 		return err
 	}
@@ -207,7 +220,16 @@ func userMD(md metadata.MD) string {
 	return strings.Join(ks, ";")
 }
 
+// strictOutcome is set while a script without a client-side cancel or deadline runs: every error the client
+// sees then is the SERVER's, and "status code and message of a server-returned error" is compared as a status -
+// the client's own cancellation and deadline expiry are only compared "as such" (context error or status alike).
+var strictOutcome bool
+
 func outcome(err error) string {
+	if strictOutcome && err != nil && err != io.EOF {
+		st, _ := status.FromError(err)
+		return fmt.Sprintf("%v:%s", st.Code(), st.Message())
+	}
 	switch {
 	case err == nil:
 		return "OK"
@@ -228,6 +250,7 @@ type ctxMaker func() (context.Context, context.CancelFunc, func())
 // deadline pass (virtual in the explored run, real in the reference run).
 func runClient(c tp.TestApiClient, sc script, mkCtx func(deadline bool) (context.Context, context.CancelFunc), waitDeadline func(ctx context.Context)) []string {
 	var tr []string
+	strictOutcome = sc.Client == "normal"
 	ctx, cancel := mkCtx(sc.Client == "deadline")
 	defer cancel()
 	stop := func(received int) bool { // client-side fault at this point?
@@ -500,11 +523,19 @@ func scripts(thorough bool) []script {
 	for n := 1; n <= maxN; n++ {
 		out = append(out, script{Shape: "sstream", HeaderMode: "set", N: n, Final: "ok", ErrAfter: -1, Client: "normal", Quirk: "reuse-msg"})
 	}
+	for _, f := range []string{"bare-deadline", "bare-canceled"} {
+		for _, shape := range []string{"unary", "sstream", "cstream", "bidi"} {
+			out = append(out, script{Shape: shape, HeaderMode: "set", Trailer: true, N: 1, Final: f, ErrAfter: -1, Client: "normal"})
+		}
+	}
 	for _, shape := range []string{"unary", "sstream", "bidi"} {
 		out = append(out, script{Shape: shape, HeaderMode: "send", Trailer: true, N: 1, Final: "ok", ErrAfter: -1, Client: "normal", Quirk: "late-setheader"})
 	}
 	for n := 0; n <= 1; n++ {
 		out = append(out, script{Shape: "bidi", HeaderMode: "none", N: n, Final: "ok", ErrAfter: -1, Client: "normal", Quirk: "closesend-twice"})
+	}
+	for _, f := range []string{"ok", "status"} {
+		out = append(out, script{Shape: "cstream", HeaderMode: "set", Trailer: true, N: 1, Final: f, ErrAfter: -1, Client: "normal", Quirk: "respond-then"})
 	}
 	return out
 }
